@@ -7,7 +7,7 @@
    parameterized types and class field types are decided by the search (sugared module versus hand-expanded module). *)
 From Coq Require Import NArith List Bool.
 Require Import RasnV.Model.Base RasnV.Model.Driver RasnV.Model.Expansion.
-Require RasnV.Proofs.C09.
+Require RasnV.Proofs.C09 RasnV.Proofs.C09Chain.
 Import ListNotations.
 
 Theorem C09_components_of_step_partial :
@@ -59,3 +59,17 @@ Example C09_pass_depth_one_applies :
   linked_members ds Proofs.C09.nT = Some [Proofs.C09.ne; Proofs.C09.na] /\
   expanded_members ds Proofs.C09.nT = Some [Proofs.C09.ne; Proofs.C09.na].
 Proof. vm_compute. split; reflexivity. Qed.
+
+(* ... and for chains of ANY depth, whenever in every list of the chain the COMPONENTS OF entries come last and every
+   referenced type (of the same kind) sorts after the type that refers to it -- the pass runs in descending name order, so
+   that type is finished before.  Outside this shape the two refuted theorems above apply. *)
+Theorem C09_pass_ordered_chain :
+  forall ds h n,
+    NoDup (map t_name ds) -> ordered_chain ds h n -> linked_members ds n = expanded_members ds n.
+Proof. exact Proofs.C09Chain.link_pass_ordered_chain_any. Qed.
+
+Example C09_pass_ordered_chain_applies :
+  NoDup (map t_name Proofs.C09Chain.ds_ordered) /\ ordered_chain Proofs.C09Chain.ds_ordered 3 Proofs.C09.nA /\
+  3 <= length Proofs.C09Chain.ds_ordered /\
+  linked_members Proofs.C09Chain.ds_ordered Proofs.C09.nA = Some [Proofs.C09.n_flag; Proofs.C09.n_label; Proofs.C09.n_id].
+Proof. exact Proofs.C09Chain.ordered_chain_applies. Qed.
